@@ -7,10 +7,17 @@ claimed.  Decided necessary conditions:
                            path, and scalars keep the incoming path; Path values are only built by Path's own constructors
   R-C10-locations          libyaml marks map line->line, column->col; with_location replaces only the location; every value is
                            located at its own mark (list elements and map values at the value's mark, map keys at the key's mark)
+  R-C10-text-as-read       the text handed to a document parser (libyaml Loader::load, serde_json/serde_yaml from_str, and the
+                           repo's own read_from / build_data_file / deserialize_payload wrappers) is the text as it was read: on the
+                           backward data slice of that argument, inside the calling function, only copying operations and the
+                           reads themselves occur — positions and values are those of the input, not of a rewritten text
+  R-C10-unresolved-point   every UnResolved built during query retrieval (to_unresolved_result / to_unresolved_value / the aggregate in
+                           retrieve_index) names as "traversed to" a clone of the value that very function is traversing — its own
+                           Rc<PathAwareValue> parameter — and nothing obtained from another query result (sibling agreement, 13 sites)
   R-C10-path-primitives    extend_str appends '/' + part to the parent's pointer and keeps the location; extend_usize /
                            extend_string delegate to it
 """
-from engine import ai, mirlib as M
+from engine import ai, flow, mirlib as M
 from engine.statusmon import Mon
 
 LEVEL = "other"
@@ -279,10 +286,135 @@ def primitives(ctx, cr):
         ctx.ob(lrule, lrule + ":mark->location", ok, detail, fn=f, sample={"mapping": detail})
 
 
+# ------------------------------------------------------------------------------------------------ unresolved point
+
+def unresolved_point(ctx, cr):
+    rule = "R-C10-unresolved-point"
+    n = 0
+    for k, f in sorted(cr.fns.items()):
+        if not k.startswith("rules::eval_context::") or "report_" in k:
+            continue
+        sites = []
+        for bi, t in M.iter_calls(f):
+            p = M.norm_path(t["fn"].get("path", ""))
+            if p.endswith("eval_context::to_unresolved_result") or p.endswith("eval_context::to_unresolved_value"):
+                sites.append((t.get("ln", 0), M.op_place(t["args"][0]), p.split("::")[-1]))
+        for bi, b in enumerate(f["blocks"]):
+            for st in b["s"]:
+                rv = st.get("rv")
+                if rv and rv["r"] == "agg" and rv.get("ak") == "adt" and str(rv.get("adt", "")) == "rules::UnResolved":
+                    sites.append((st.get("ln", 0), M.op_place(rv["ops"][0]), "UnResolved{..}"))
+        for i, (ln, pl, what) in enumerate(sorted(sites, key=lambda x: (x[0], x[2]))):
+            n += 1
+            key = "%s:%s:%s#%d" % (rule, k, what, i)
+            if pl is None:
+                ctx.ob(rule, key, False, "traversed_to is a constant", fn=f, line=ln)
+                continue
+            calls, consts, locs = flow.backward_slice(f, M.place_local(pl))
+            other = sorted(set(M.norm_path(c["fn"].get("path", "")) for c in calls if M.norm_path(c["fn"].get("decl", "")) != "std::clone::Clone::clone"))
+            params = [l for l in locs if 0 < l <= f["argc"]]
+            rc_params = []
+            for l in params:
+                ty = M.Ty(cr, f["locals"][l])
+                tt = ty.strip_refs()
+                if (tt.adt_path() or "").endswith("rc::Rc") and tt.args() and (tt.args()[0].adt_path() or "") == PAV:
+                    rc_params.append(l)
+            ok = not other and len(rc_params) == 1
+            ctx.ob(rule, key, ok, "traversed_to is a clone of the function's own traversal parameter" if ok else
+                   "the point reported as reached is not (only) the value this function is traversing: slice reaches parameters %s through %s" % (rc_params or params, other[:3] or "no call"),
+                   fn=f, line=ln, sample={"fn": k, "line": ln} if n == 1 else None)
+    if n < 13:
+        ctx.lost(rule, rule + ":floor", "only %d UnResolved construction sites found (floor 13)" % n)
+
+
+# ------------------------------------------------------------------------------------------------ text as read
+
+TEXT_SINKS = {
+    # callee path suffix -> index of the text argument
+    "rules::libyaml::loader::Loader::load": 1,
+    "serde_json::from_str": 0,
+    "serde_yaml::from_str": 0,
+    "rules::values::read_from": 0,
+    "commands::validate::build_data_file": 0,
+    "commands::validate::deserialize_payload": 0,
+}
+
+COPIES = {
+    "<T as std::string::ToString>::to_string": "copy of a str / Display of an already parsed value",
+    "<std::string::String as std::ops::Deref>::deref": "borrow",
+    "<std::rc::Rc<T, A> as std::ops::Deref>::deref": "borrow",
+    "<std::string::String as std::convert::From<&str>>::from": "copy",
+    "<std::string::String as std::clone::Clone>::clone": "copy",
+    "std::string::String::as_str": "borrow",
+    "<std::string::String as std::convert::AsRef<str>>::as_ref": "borrow",
+    "<I as std::iter::IntoIterator>::into_iter": "element selection",
+    "core::slice::<impl [T]>::iter": "element selection",
+    "<std::slice::Iter<'a, T> as std::iter::Iterator>::next": "element selection",
+    "<std::iter::Enumerate<I> as std::iter::Iterator>::next": "element selection",
+    "std::string::String::new": "empty read buffer",
+}
+
+READS = {
+    "std::io::Read::read_to_string": "the read itself",
+    "std::fs::read_to_string": "the read itself",
+    "std::io::BufReader::<R>::new": "reader",
+    "std::fs::File::open": "reader",
+    "std::fs::DirEntry::path": "file name",
+    "walkdir::DirEntry::path": "file name",
+    "<std::result::Result<T, E> as std::ops::Try>::branch": "error propagation",
+    "<std::path::PathBuf as std::ops::Deref>::deref": "file name",
+    "<std::path::PathBuf as std::convert::AsRef<std::path::Path>>::as_ref": "file name",
+}
+
+
+def text_as_read(ctx, crates):
+    rule = "R-C10-text-as-read"
+    n_sites = 0
+    for cr, kind in crates:
+        for k, f in sorted(cr.fns.items()):
+            if "_tests::" in k or k.startswith("tests::") or "::tests::" in k or f.get("file", "").endswith("_tests.rs"):
+                continue
+            ordinal = {}
+            for bi, t in M.iter_calls(f):
+                p = M.norm_path(t["fn"].get("path", ""))
+                sink = next((s for s in TEXT_SINKS if p.endswith(s)), None)
+                if sink is None:
+                    continue
+                idx = TEXT_SINKS[sink]
+                if idx >= len(t["args"]):
+                    continue
+                n = ordinal.get(sink, 0)
+                ordinal[sink] = n + 1
+                key = "%s:%s:%s:%s#%d" % (rule, kind, k, sink.split("::")[-1], n)
+                pl = M.op_place(t["args"][idx])
+                if pl is None:
+                    ctx.ob(rule, key, True, "constant text", fn=f, line=t.get("ln", 0))
+                    n_sites += 1
+                    continue
+                calls, consts, locs = flow.backward_slice(f, M.place_local(pl), stop=lambda c: M.norm_path(c["fn"].get("decl", "")) in ("std::io::Read::read_to_string",) or M.norm_path(c["fn"].get("path", "")) == "std::fs::read_to_string")
+                bad = []
+                for c in calls:
+                    cp = M.norm_path(c["fn"].get("path", ""))
+                    decl = M.norm_path(c["fn"].get("decl", ""))
+                    if cp in COPIES or cp in READS or decl in READS or decl in COPIES:
+                        continue
+                    if any(cp.endswith(s) for s in TEXT_SINKS):
+                        continue
+                    bad.append("%s (l.%s)" % (cp, c.get("ln")))
+                n_sites += 1
+                ctx.ob(rule, key, not bad, ("the text given to %s passes through %s, which is not a copy of what was read: positions/values would be those of a rewritten text" % (sink.split("::")[-1], "; ".join(sorted(set(bad))[:3]))) if bad
+                       else "%d calls on the slice, all copies or the read itself" % len(calls), fn=f, line=t.get("ln", 0),
+                       sample={"site": k, "sink": sink, "calls": sorted(set(M.norm_path(c["fn"].get("path", "")).split("::")[-1] for c in calls))} if sink.endswith("Loader::load") else None)
+    if n_sites < 20:
+        ctx.lost(rule, rule + ":floor", "only %d parser call sites found (floor 20)" % n_sites)
+
+
 def run(ctx):
     cr = ctx.lib
     loaders(ctx, cr)
     primitives(ctx, cr)
+    unresolved_point(ctx, cr)
+    text_as_read(ctx, [(ctx.lib, "lib")] if ctx.lib is ctx.bin else [(ctx.lib, "lib"), (ctx.bin, "bin")])
     ctx.assumptions += [
         "libyaml reports the mark at which a scalar starts (dependency)",
         "that a reported pointer resolves in the document to the reported value, remaining_query text and unresolved traversal points are run-time facts and not claimed",
